@@ -141,7 +141,7 @@ def main(argv=None):
         _MOD = mod
     else:
         pool = ctx.Pool(min(args.jobs, len(units)), initializer=_init_worker, initargs=(modname, args.tier, seed))
-        it = pool.imap_unordered(_run_unit, units, chunksize=getattr(mod, 'CHUNK', 1))
+        it = pool.imap_unordered(_run_unit, units)
     try:
         while True:
             try:
